@@ -57,7 +57,7 @@ def mentions(e, n):
 
 
 class Gen:
-    def __init__(self, rng, template=None, alphabet=None, size=None, depth=2):
+    def __init__(self, rng, template=None, alphabet=None, size=None, depth=2, force=()):
         self.r = rng
         self.template = (rng.random() < 0.6) if template is None else template
         self.alpha = alphabet if alphabet is not None else rng.choice(["plain", "plain", "collide"])
@@ -69,6 +69,8 @@ class Gen:
         self.sig_out = []
         self.sig_mid = []
         self.protected = set()      # loop counters
+        self.chain_tails = []       # last names of long dependency chains (program() lets them reach an effect)
+        self.force = list(force)    # shapes to produce at the next top-level statements (size probes)
         self.comps = []             # declared components: (name, number of input ports)
         self.n = 0
         self.features = set()
@@ -261,7 +263,7 @@ class Gen:
         el = self.body(depth - 1, r.randrange(1, 3), in_loop) if r.random() < 0.7 else None
         return pre + [S("if", cond, th, el)]
 
-    def simple_loop(self, in_loop):
+    def simple_loop(self, in_loop, inner=0):
         """`for (var i = 0; i < bound; i++) { .. }` as one statement; the bound is a literal, a parameter or (templates) an
         input signal masked to two bits, the body assigns visible scalars."""
         r = self.r
@@ -277,9 +279,111 @@ class Gen:
             bound = ("num", r.randrange(1, 4))
         self.scopes.append([(i, "s")])
         self.protected.add(i)
-        body = self.body(0, r.randrange(1, 3), True)
+        body = self.body(inner, r.randrange(1, 3), True)
+        if inner > 0 and not any(st[0] in ("if", "for", "while") for st in body):
+            # control inside the loop was asked for
+            body.append(S("if", self.cond(1), self.body(inner - 1, 1, True),
+                          self.body(inner - 1, 1, True) if r.random() < 0.5 else None))
         self.scopes.pop()
         return [S("for", S("decl", i, [], ("num", 0)), ("bin", "<", ("var", i), bound), S("incr", i, "++"), body)]
+
+    # ---- shapes added after the fourth audit (sizes the generator never reached) ----
+    def long_chain(self):
+        """`var a0 = p; var a1 = a0 + 1; .. var aN = a(N-1) + 1;` with N in 36..60: the closure loops of multi_step_taint need
+        more than N rounds from the head; the tail reaches an effect (added by program())."""
+        r = self.r
+        self.features.add("long-chain")
+        self.n += 1
+        base = "ch%d_" % self.n
+        n = r.randrange(36, 61)
+        head = self.atom(sig_ok=False)
+        out = [S("decl", base + "0", [], head)]
+        for k in range(1, n + 1):
+            e = ("bin", r.choice(["+", "+", "*", "-"]), ("var", base + str(k - 1)), ("num", r.choice([1, 1, 2, 3])))
+            if r.random() < 0.15:
+                e = ("bin", "+", e, self.atom(sig_ok=False))
+            out.append(S("decl", base + str(k), [], e))
+        self.declare(base + str(n), "s")
+        self.chain_tails.append(base + str(n))
+        return out
+
+    def many_blocks(self, in_region):
+        """40..50 one-armed branches in a row (over 100 basic blocks). With in_region they sit in a branch on an input signal and are
+        followed by an assignment that a later constraint uses: the branch region is more than 32 reachability rounds deep."""
+        r = self.r
+        self.n += 1
+        v = "mb%d" % self.n
+        n = r.randrange(35, 39) if in_region else r.randrange(40, 51)      # about 2.2 blocks per branch: 75-90 blocks
+        seq = []
+        for k in range(n):
+            c = ("bin", r.choice(["==", "<", "!="]), ("var", v), ("num", r.randrange(0, 5)))
+            if self.params and r.random() < 0.3:
+                c = ("bin", "<", ("var", r.choice(self.params)), ("num", k % 4))
+            seq.append(S("if", c, [S("assign", v, [], r.choice(["+=", "*="]), ("num", r.randrange(1, 4)))], None))
+        self.features.add("many-blocks")
+        if not (in_region and self.template and [x for x, l in self.sig_in if l is None]):
+            self.declare(v, "s")
+            return [S("decl", v, [], ("num", 0))] + seq
+        self.features.add("deep-region")
+        sig = r.choice([x for x, l in self.sig_in if l is None])
+        y, z = "dy%d" % self.n, "dz%d" % self.n
+        out = [S("decl", v, [], ("num", 0)), S("decl", y, [], ("num", 0)), S("decl", z, [], self.lit()),
+               S("if", ("bin", "==", ("var", sig), self.lit()), seq + [S("assign", y, [], "=", ("bin", "+", ("var", v), ("num", 1)))], None)]
+        if self.sig_mid:
+            out.append(S("ceq", ("var", self.sig_mid[0][0]), ("bin", "*", ("var", y), ("var", z))))
+        else:
+            out.append(S("ceq", ("var", y), ("var", z)))
+        return out
+
+    def merged_const_condition(self):
+        """`var x; if (in0 == c) { x = 1; } if (x == 1) { y = 1; } s === y * z`: the second condition reads a local merged from the
+        default and a value assigned under a branch on a signal. It is NOT constant; an analysis that folds it (a phi that ignores its
+        unknown argument) skips the region and loses the implicit flow in0 -> y."""
+        r = self.r
+        sigs = [x for x, l in self.sig_in if l is None]
+        if not (self.template and sigs):
+            return None
+        self.features.add("merged-const-condition")
+        self.n += 1
+        x, y, z = "mx%d" % self.n, "my%d" % self.n, "mz%d" % self.n
+        k = r.choice([1, 2, 3])
+        out = [S("decl", x, [], None if r.random() < 0.7 else ("num", k + 1)), S("decl", y, [], ("num", 0)), S("decl", z, [], self.lit()),
+               S("if", ("bin", r.choice(["==", "<"]), ("var", r.choice(sigs)), self.lit()), [S("assign", x, [], "=", ("num", k))], None),
+               S("if", ("bin", "==", ("var", x), ("num", k)), [S("assign", y, [], "=", ("num", 1))],
+                 [S("assign", y, [], "=", ("num", 2))] if r.random() < 0.4 else None)]
+        if self.sig_mid and r.random() < 0.5:
+            out += [S("sigassign", self.sig_mid[0][0], [], "<--", ("var", z)), S("ceq", ("var", self.sig_mid[0][0]), ("var", y))]
+        else:
+            out.append(S("ceq", ("var", y), ("var", z)))
+        return out
+
+    def nest3(self):
+        """Three loops inside one another with a branch (and sometimes a fourth loop) innermost."""
+        r = self.r
+        self.features.add("loop-nesting-3")
+        inner = self.body(1, r.randrange(1, 3), True)
+        if not any(st[0] == "if" for st in inner):
+            inner.append(S("if", self.cond(1), self.body(0, 1, True), self.body(0, 1, True) if r.random() < 0.5 else None))
+        cur = inner
+        names = []
+        for lvl in range(3):
+            self.n += 1
+            i = "i%d" % self.n
+            names.append(i)
+            bound = ("var", r.choice(self.params)) if (self.params and r.random() < 0.3) else ("num", r.randrange(1, 3))
+            sigs = [x for x, l in self.sig_in if l is None] if self.template else []
+            if sigs and r.random() < 0.2:
+                bound = ("bin", "&", ("var", r.choice(sigs)), ("num", 1))
+            pre = self.body(0, r.randrange(0, 2), True)
+            cur = [S("for", S("decl", i, [], ("num", 0)), ("bin", "<", ("var", i), bound), S("incr", i, "++"), pre + cur)]
+        return cur
+
+    def const_loop(self, in_loop):
+        """A loop whose condition is constant for the tool: `while (0) {..}`, `while (2 < 1) {..}`."""
+        r = self.r
+        self.features.add("const-loop-cond")
+        c = r.choice([("num", 0), ("bin", "<", ("num", 2), ("num", 1)), ("bin", "==", ("num", 1), ("num", 0))])
+        return [S("while", c, self.body(0, r.randrange(1, 3), True))]
 
     def extra(self, depth, in_loop):
         """Shapes added after the third audit (each counted as a feature): sub-components and their ports,
@@ -427,6 +531,22 @@ class Gen:
             ex = self.extra(depth, in_loop)
             if ex:
                 return ex
+        if r.random() < 0.03:
+            k = r.randrange(3)
+            ex = self.merged_const_condition() if k == 0 else (self.const_loop(in_loop) if k == 1 else None)
+            if ex:
+                return ex
+        if self.force and depth == self.depth and not in_loop:
+            shape = self.force.pop()
+            ex = {"long-chain": self.long_chain, "deep-region": lambda: self.many_blocks(True), "many-blocks": lambda: self.many_blocks(False),
+                  "loop-nesting-3": self.nest3, "merged-const-condition": self.merged_const_condition,
+                  "const-loop-cond": lambda: self.const_loop(False)}[shape]()
+            if ex:
+                return ex
+        if depth == self.depth and not in_loop and r.random() < 0.012:
+            # (graphs of more than 100 blocks cost the Gallina mirrors 20-40 s each: they come only as the fixed size probes
+            #  of lib/props/C09.py::make_cases, never at random)
+            return self.long_chain() if r.random() < 0.4 else self.nest3()
         c = r.random()
         sc = [x for x in self.scalars() if x not in self.protected]
         if c < 0.22 or not sc:
@@ -575,9 +695,19 @@ class Gen:
             if not self.template and r.random() < 0.06:
                 self.features.add("early-return")
                 body.append(S("if", self.cond(1), [S("return", self.expr(1))], None))
+        tails = [t for t in self.chain_tails if t in self.scalars()]
         if not self.template:
-            body.append(S("return", self.expr(2, prefer=self.scalars()[-3:] or None)))
+            e = self.expr(2, prefer=self.scalars()[-3:] or None)
+            for t in tails:
+                e = ("bin", "+", e, ("var", t))
+            body.append(S("return", e))
         else:
+            for t in tails:
+                if self.sig_out:
+                    n, ln = self.sig_out[0]
+                    src = [("var", x) for x, l in self.sig_in if l is None] or [("num", 1)]
+                    body.append(S("sigassign", n, [("num", 0) for _ in dimsof(ln)], r.choice(["<==", "<--"]),
+                                  ("bin", "+", r.choice(src), ("var", t))))
             # make sure something flows somewhere
             sc = self.scalars()
             if sc and self.sig_out:
@@ -588,8 +718,18 @@ class Gen:
             if k < 0.10:
                 # the definition ENDS in a loop: no block without successor, the loop header is the exit
                 self.features.add("trailing-loop")
-                body += self.simple_loop(False)
-            elif k < 0.16:
+                if r.random() < 0.5:
+                    self.features.add("trailing-loop-with-control")
+                    body += self.simple_loop(False, inner=r.choice([1, 1, 2]))
+                else:
+                    body += self.simple_loop(False)
+            elif k < 0.17 and r.random() < 0.2:
+                # the definition ends in a loop whose condition is a constant true (never left)
+                self.features.add("trailing-loop")
+                self.features.add("const-loop-cond")
+                self.features.add("while-true")
+                body.append(S("while", ("num", 1), self.body(1, r.randrange(1, 3), True)))
+            elif k < 0.17:
                 # ... or in a branch whose last statement is a loop
                 self.features.add("trailing-loop")
                 self.features.add("branch-ends-in-loop")
@@ -750,7 +890,25 @@ def wire_line(prog):
     return ("file:" + h) if prog.get("helpers") else h
 
 
+def forced(rng, shape, tries=400):
+    """A generated definition that contains the given shape (size probes / required shapes): the shape is forced at the first
+    top-level statement; retried until the feature is there (a template without a scalar input cannot hold every shape)."""
+    want = {"while-true": "while-true", "trailing-loop-with-control": "trailing-loop-with-control"}
+    for _ in range(tries):
+        if shape in want:
+            p = generate(rng, template=True)
+        else:
+            p = generate(rng, template=True if shape in ("deep-region", "merged-const-condition") else None, force=(shape,),
+                         size=rng.randrange(2, 5))
+        if shape in p["features"]:
+            return p
+    raise RuntimeError("c09gen.forced: shape %s not produced in %d tries" % (shape, tries))
+
+
 def generate(rng, **kw):
+    if "depth" not in kw and rng.random() < 0.12:
+        # nesting depth 3 (three loops, a branch in two loops, ..), fewer top-level statements
+        kw = dict(kw, depth=3, size=rng.randrange(2, 6))
     g = Gen(rng, **kw)
     prog = g.program()
     prog["alphabet"] = g.alpha
